@@ -398,6 +398,8 @@ pub fn make_run(seed: u64, run: u64, menu: &[Box<dyn TyObj>]) -> RunSpec {
     }
     let infallible = p.chance(1, 4);
     let fresh_seed = p.next();
+    // error code carried by injected RNG errors: a custom code, OS-style codes (EINTR, EIO, EAGAIN), an internal one
+    let err_code = [0xC000_0007u32, 0xC000_0007, 4, 5, 11, 0x8000_0001, 0xC000_0000, 1][p.below(8) as usize];
     let mut ops = Vec::new();
     if mode == 4 {
         ops.push(span_op(&mut p, &sw, w, db, signed));
@@ -420,7 +422,7 @@ pub fn make_run(seed: u64, run: u64, menu: &[Box<dyn TyObj>]) -> RunSpec {
             ops.push(mixed_op(&mut p, &sw, w, db, signed, &shape_w));
         }
     }
-    RunSpec { seed, run, ty: ty.name().to_string(), infallible, fresh_seed, ops, mode }
+    RunSpec { seed, run, ty: ty.name().to_string(), infallible, fresh_seed, err_code, ops, mode }
 }
 
 fn mixed_op(p: &mut Prng, sw: &Swarm, w: usize, db: usize, signed: bool, shape_w: &[u32]) -> Op {
@@ -463,7 +465,27 @@ fn mixed_op(p: &mut Prng, sw: &Swarm, w: usize, db: usize, signed: bool, shape_w
             };
             let via = [FillVia::TryFillSlice, FillVia::TryFillSlice, FillVia::FillTrait, FillVia::RngTryFill, FillVia::RngFill][p.below(5) as usize];
             let init = [0u8, 0xFF, 0x5A][p.below(3) as usize];
-            Op { kind: OpKind::Fill { len, init, via }, dynamic, calls: (0..1 + p.below(2)).map(|_| fill_call_plan(p, sw, w * len.max(1), db)).collect(), shape: 0 }
+            // the filled sub-slice starts 0..3 elements into its buffer (varies the alignment of the byte view)
+            let front = [0usize, 0, 1, 2, 3][p.below(5) as usize];
+            let vol = w * len.max(1);
+            let calls = (0..1 + p.below(2))
+                .map(|_| {
+                    let mut plan = fill_call_plan(p, sw, vol, db);
+                    // sometimes the fault is placed by volume instead: it fires on whichever request carries that byte
+                    if let Some(f) = fault_plan(p, sw) {
+                        if p.chance(1, 2) {
+                            let at = match p.below(4) {
+                                0 => vol as u64 - 1,                       // inside the last request
+                                1 => (vol as u64).saturating_sub(1 + p.below(w as u64 + 1)), // inside the last element
+                                _ => p.below(vol as u64),
+                            };
+                            plan.insert(0, Plan::FaultAtByte(at, Box::new(f)));
+                        }
+                    }
+                    plan
+                })
+                .collect();
+            Op { kind: OpKind::Fill { len, init, front, via }, dynamic, calls, shape: 0 }
         }
         _ => {
             let len = if p.chance(1, 25) { 10 + p.below(if w > 256 { 4 } else { 300 }) as usize } else { p.below(max_len + 1) as usize };
